@@ -506,6 +506,14 @@ func VerifPagination(root *html.Node, pageURL *nurl.URL) VerifPaginationData {
 	d.PagingURLs = append(d.PagingURLs, urls...)
 	if d.DocParses {
 		if t := strings.TrimSuffix(d.DocURL, "/"); !seen[t] {
+			seen[t] = true
+			d.PagingURLs = append(d.PagingURLs, t)
+		}
+		// the document URL with the trailing slash of its path (only) removed
+		pt := *parsedDocURL
+		pt.Path = strings.TrimSuffix(pt.Path, "/")
+		pt.RawPath = strings.TrimSuffix(pt.RawPath, "/")
+		if t := pt.String(); !seen[t] {
 			d.PagingURLs = append(d.PagingURLs, t)
 		}
 	}
